@@ -29,30 +29,9 @@ func runAttrs(c *Ctx, ev *Evidence, which string) ([]Violation, error) {
 	if err != nil {
 		return nil, err
 	}
-	nReach := 0
-	res := dischargeAll(ur.In, ev, ur.Obs, func(ob *sym.Obligation) bool {
-		if ob.Kind == "reach" {
-			nReach++
-			return nReach <= 8
-		}
-		return true
-	}, timeout, grace, which)
-	reach := 0
 	seen := map[string]bool{}
-	for _, r := range res {
-		if r.Ob.Kind == "reach" {
-			if r.Res.Status == smt.Sat {
-				reach++
-			}
-			continue
-		}
-		switch r.Res.Status {
-		case smt.Unknown:
-			ev.Inconclusive(fmt.Sprintf("%s obligation on path %d undecided: %s", which, r.Ob.PathID, r.Res.Note))
-			continue
-		case smt.Unsat:
-			continue
-		}
+	budget := newReplayBudget()
+	v2, reachM, err := c.runUnitObligations(ev, ur, which, timeout, grace, func(r UnitResult) (*Violation, error) {
 		var failed []string
 		for k, v := range r.Notes {
 			if strings.HasPrefix(k, "c:"+which) && !v.B {
@@ -60,22 +39,25 @@ func runAttrs(c *Ctx, ev *Evidence, which string) ([]Violation, error) {
 			}
 		}
 		if len(failed) == 0 {
-			continue // the other family's conjunct failed; that check reports it
+			return nil, nil // the other family's conjunct failed; that check reports it
 		}
 		sort.Strings(failed)
 		sig := "conjunct=" + strings.Join(failed, "+")
-		if seen[sig] {
-			continue
+		if seen[sig] || !budget.allow(sig) {
+			return nil, nil
 		}
 		v, err := replayAttrsGeneric(c, ev, ur.In, r, which, sig)
-		if err != nil {
-			return nil, err
-		}
 		if v != nil {
 			seen[sig] = true
-			viols = append(viols, *v)
 		}
+		return v, err
+	})
+	if err != nil {
+		return nil, err
 	}
+	viols = append(viols, v2...)
+	reach := reachM["ATTRS-reach"]
+	budget.report(ev, which)
 	ur.In.Close()
 	if reach == 0 {
 		ev.Inconclusive("vacuity: generic attribute harness unreachable")
